@@ -122,7 +122,10 @@ def _wrap(name):
             if name == "do":
                 ev["id"] = rec.chid(change)
                 ev["leaves"] = rec.leaves(change)
-                ev["interesting"] = bool(self._is_change_interesting(change))
+                # the documented rule, evaluated here (not by calling the method under test): a change is
+                # recorded iff at least one resource it changes is not an ignored resource
+                ev["interesting"] = any(not self.project.is_ignored(r)
+                                        for r in change.get_changed_resources() if r is not None)
                 ev["i"] = 0
             else:
                 lst = self.undo_list if name == "undo" else self.redo_list
